@@ -6,7 +6,7 @@ import specgen
 from common import text
 
 EXTRA_COQ_FILES = ('GenFacts/SchemaOK.v', 'GenFacts/ConstantsOK.v')
-RULE = ('[plus 12/120 write-edit-write histories through the public API, every file decoded] ' + 'seeded random specifications over all 22 object types: attribute subsets by density 0/0.3/0.7/1, value multiplicities '
+RULE = ('[plus 12/120 write-edit-write histories through the public API, every file decoded; every second specification written again after in-place edits (append / pop) of the value lists its attributes hand out; 40/400 valid programs with one non-ASCII character in a text leaf: refused, or the file decodes] ' + 'seeded random specifications over all 22 object types: attribute subsets by density 0/0.3/0.7/1, value multiplicities '
         '0,1,2,3,5,127,128,200, nested lists, units (str/Unit member, AttrSetup/dict), named and unnamed sets, repeated names; '
         'every EFLR body tapped before segmentation is (a) parsed by the strict component reader, (b) compared with the model '
         'encoder applied to the Python-side attribute state. Distinct by (set type, number of objects, body length).')
@@ -25,6 +25,7 @@ def sets_in_order(df):
 
 def run(ctx):
     rng = ctx.rng('specs')
+    rng_e = ctx.rng('inplace')
     n = 60 if ctx.tier == 'quick' else 700
     from dliswriter.logical_record.eflr_types import FileHeaderSet
     built = written = 0
@@ -36,52 +37,80 @@ def run(ctx):
         built += 1
         ctx.stat('K-attr', 'ops', len(outs))
         ctx.stat('K-attr', 'ops_rejected', sum(1 for o in outs if o[0] == 'err'))
+        def check_write(w, edits):
+            if w[0] != 'ok':
+                ctx.stat('K-attr', 'write_raised:' + w[1])
+                return None
+            recs = w[1]['recs']
+            eflr_bodies = [b for e, t, b in recs if e]
+            sets = sets_in_order(df)
+            if len(sets) != len(eflr_bodies):
+                ctx.violation('number-of-EFLR-records-differs-from-number-of-sets', {'spec': spec, 'edited_in_place': edits, 'sets': len(sets), 'records': len(eflr_bodies)})
+                return None
+            # (a) strict component grammar on every body
+            nonempty = [(s, b) for s, b in zip(sets, eflr_bodies) if b]
+            dec = ctx.model.batch([[23, b] for s, b in nonempty])
+            reqs = []
+            for (s, b), d in zip(nonempty, dec):
+                ctx.count('K-attr', key=(s.set_type, s.n_items, len(b)))
+                ctx.stat('K-attr', 'type_' + s.set_type)
+                det = {'spec': spec, 'edited_in_place': edits, 'set_type': s.set_type, 'set_name': s.set_name, 'body_hex': b[:3000].hex(), 'body_len': len(b)}
+                if d[0] != 0:
+                    ctx.violation('EFLR-body-rejected-by-strict-component-reader', det)
+                    continue
+                ty, nm, tmpl, dobjs, tok = d[1]
+                if not tok:
+                    ctx.violation('template-labels-empty-or-duplicated', {**det, 'labels': [bytes(t[0]).decode('latin1') for t in tmpl]})
+                if len(dobjs) != s.n_items or any(len(o[1]) != len(tmpl) for o in dobjs):
+                    ctx.violation('objects-or-attribute-components-do-not-match-template', {**det, 'objects': len(dobjs), 'items': s.n_items})
+                if isinstance(s, FileHeaderSet):
+                    it = s.get_all_eflr_items()[0]
+                    reqs.append([24, [it.origin_reference, it.copy_number, text(it.name)], it.sequence_number, text(it.header_id)])
+                else:
+                    reqs.append([20, specgen.eset_tree(s)])
+            # (b) correspondence with the model encoder
+            if len(reqs) == len(nonempty):
+                reps = ctx.model_batch(reqs, sample_every=5)
+                for (s, b), m in zip(nonempty, reps):
+                    if m[0] != 0:
+                        if m[1] == 8:      # outside the modelled domain (e.g. |int| >= 2^53 under FDOUBL)
+                            ctx.stat('K-attr', 'outside_model')
+                            continue
+                        ctx.violation('model-rejects-a-set-the-implementation-wrote', {'spec': spec, 'edited_in_place': edits, 'set_type': s.set_type, 'model': m})
+                    elif m[1] != b:
+                        pos = next((i for i in range(min(len(b), len(m[1]))) if b[i] != m[1][i]), min(len(b), len(m[1])))
+                        ctx.violation('EFLR-body-differs-from-model', {'spec': spec, 'edited_in_place': edits, 'set_type': s.set_type, 'first_difference_at': pos,
+                                                                       'impl_around': b[max(0, pos - 16):pos + 32].hex(), 'model_around': m[1][max(0, pos - 16):pos + 32].hex()})
+            return nonempty
+
         w = impl.outcome(lambda: impl.write_real(df))
         ctx.count('K-attr-files', key=k)
-        if w[0] != 'ok':
-            ctx.stat('K-attr', 'write_raised:' + w[1])
+        nonempty = check_write(w, None)
+        if nonempty is None:
             continue
         written += 1
-        recs = w[1]['recs']
-        eflr_bodies = [b for e, t, b in recs if e]
-        sets = sets_in_order(df)
-        if len(sets) != len(eflr_bodies):
-            ctx.violation('number-of-EFLR-records-differs-from-number-of-sets', {'spec': spec, 'sets': len(sets), 'records': len(eflr_bodies)})
-            continue
-        # (a) strict component grammar on every body
-        nonempty = [(s, b) for s, b in zip(sets, eflr_bodies) if b]
-        dec = ctx.model.batch([[23, b] for s, b in nonempty])
-        reqs = []
-        for (s, b), d in zip(nonempty, dec):
-            ctx.count('K-attr', key=(s.set_type, s.n_items, len(b)))
-            ctx.stat('K-attr', 'type_' + s.set_type)
-            det = {'spec': spec, 'set_type': s.set_type, 'set_name': s.set_name, 'body_hex': b[:3000].hex(), 'body_len': len(b)}
-            if d[0] != 0:
-                ctx.violation('EFLR-body-rejected-by-strict-component-reader', det)
-                continue
-            ty, nm, tmpl, dobjs, tok = d[1]
-            if not tok:
-                ctx.violation('template-labels-empty-or-duplicated', {**det, 'labels': [bytes(t[0]).decode('latin1') for t in tmpl]})
-            if len(dobjs) != s.n_items or any(len(o[1]) != len(tmpl) for o in dobjs):
-                ctx.violation('objects-or-attribute-components-do-not-match-template', {**det, 'objects': len(dobjs), 'items': s.n_items})
-            if isinstance(s, FileHeaderSet):
-                it = s.get_all_eflr_items()[0]
-                reqs.append([24, [it.origin_reference, it.copy_number, text(it.name)], it.sequence_number, text(it.header_id)])
-            else:
-                reqs.append([20, specgen.eset_tree(s)])
-        # (b) correspondence with the model encoder
-        if len(reqs) == len(nonempty):
-            reps = ctx.model_batch(reqs, sample_every=5)
-            for (s, b), m in zip(nonempty, reps):
-                if m[0] != 0:
-                    if m[1] == 8:      # outside the modelled domain (e.g. |int| >= 2^53 under FDOUBL)
-                        ctx.stat('K-attr', 'outside_model')
-                        continue
-                    ctx.violation('model-rejects-a-set-the-implementation-wrote', {'spec': spec, 'set_type': s.set_type, 'model': m})
-                elif m[1] != b:
-                    pos = next((i for i in range(min(len(b), len(m[1]))) if b[i] != m[1][i]), min(len(b), len(m[1])))
-                    ctx.violation('EFLR-body-differs-from-model', {'spec': spec, 'set_type': s.set_type, 'first_difference_at': pos,
-                                                                   'impl_around': b[max(0, pos - 16):pos + 32].hex(), 'model_around': m[1][max(0, pos - 16):pos + 32].hex()})
+        if k % 2 == 0:
+            # the lists the attributes hand out are the user's to edit in place: the count written with the next
+            # write is the number of values then held (a count remembered from the first write is not)
+            edits = []
+            for s_ in sets_in_order(df):
+                if isinstance(s_, FileHeaderSet):
+                    continue
+                for it in s_.get_all_eflr_items():
+                    for a in it.attributes.values():
+                        v = a.value
+                        if isinstance(v, list) and v and not isinstance(v[-1], list) and a.multivalued and rng_e.random() < 0.4:
+                            if rng_e.random() < 0.7 or len(v) < 2:
+                                v.append(v[-1])
+                                edits.append((s_.set_type, it.name, a.label, '+1'))
+                            else:
+                                v.pop()
+                                edits.append((s_.set_type, it.name, a.label, '-1'))
+            if edits:
+                ctx.stat('K-attr', 'in_place_edits', len(edits))
+                w2 = impl.outcome(lambda: impl.write_real(df))
+                ctx.count('K-attr-files', key=(k, 'rewritten'))
+                check_write(w2, edits[:20])
         if k % 9 == 0:
             ctx.sample({'stream': 'K-attr', 'sets': [(s.set_type, s.set_name, s.n_items, len(b)) for s, b in nonempty][:12]})
     ctx.notes.append('specifications built: %d, written: %d' % (built, written))
@@ -98,6 +127,22 @@ def run(ctx):
             ctx.stat('K-api-rewrite', 'files_decoded')
             if not d.ok:
                 ctx.violation('file-of-a-rewrite-history-rejected-by-the-strict-reader', {'program': apistream.strip_private(hist), 'write_step': step})
+    # text outside ASCII: the call or the write is refused, or the file still decodes (a transliteration that keeps the
+    # character count of the original as the length prefix does not)
+    rng3 = ctx.rng('nonascii')
+    for k in range(40 if ctx.tier == 'quick' else 400):
+        prog, info = apistream.nonascii_program(rng3)
+        if prog is None:
+            continue
+        r = apistream.run_one(ctx, prog, 'K-api-nonascii')
+        ctx.count('K-api-nonascii', key=k)
+        ctx.stat('K-api-nonascii', 'char_U+%04X' % ord(info['char'][0]))
+        ctx.stat('K-api-nonascii', 'files_written', len(r['files']))
+        for (step, data, vrl, ident) in r['files']:
+            d = apistream.decode(ctx, data, vrl, ident)
+            if not d.ok:
+                ctx.violation('file-with-non-ASCII-text-rejected-by-the-strict-reader',
+                              {'program': apistream.strip_private(prog), 'write_step': step, 'where': list(info['where']), 'char': info['char']})
 
 
 def replay(ctx, data):
